@@ -8,6 +8,8 @@ CLAIMED = {
          "DESIGN.md 5/C01", "invariant by induction over operations (Coq) + correspondence on generated histories + oracle"),
  "C02": ("Theorem C02_history_wf: DInv (C01's invariant on the tail side and on the head side, plus agreement of their key sets and counters) after every history of the 20-op DiHypergraph alphabet, raising calls included; C02_reports states tail<->out, head<->in, nothing dangling. Correspondence as for C01 on directed histories.",
          "DESIGN.md 5/C02", "invariant by induction over operations (Coq) + correspondence on generated histories + oracle"),
+ "C03": ("Theorem C03_history_inv: SInv (C01's invariant + every sub-face with at least two nodes of every simplex is a simplex + no two ids carry the same node set + no simplex is empty) after every history of the 20-op SimplicialComplex alphabet, for every iteration order of the face sets (hint) and raising calls included; C03_remove_exact, C03_max_order, C03_has_simplex_exact. Correspondence on generated histories as for C01.",
+         "DESIGN.md 5/C03", "invariant by induction over operations (Coq) + correspondence on generated histories + oracle"),
  "C04": ("Theorems C04_history_uid_hg (counter above every integer-like id after every history), C04_auto_fresh, C04_add_frame / C04_bulk_add_frame (old edges keep position, members, attributes; memberships only gain new ids), C04_explicit_dup_refused. Correspondence compares edge tables, attribute values, warnings and the next automatic id step by step; every provenance of all three classes is probed by the oracle with automatic/explicit additions.",
          "DESIGN.md 5/C04", "invariant + frame theorems (Coq) + correspondence incl. next-id + provenance sweep oracle"),
 }
